@@ -358,7 +358,7 @@ func (r *c9Runner) write(a map[string]string) string {
 	t := r.tracks[ti]
 	pts := atoi64(a["pts"])
 	ntpMs := atoi64(a["ntp"])
-	ntp := time.UnixMilli(ntpMs)
+	ntp := mxInZone(ntpMs)
 	ra, pic, par := a["ra"] == "1", a["pic"] == "1", int(atoi64(a["par"]))
 	pays := intsOf(a["pays"])
 	fill := int(atoi64(a["fill"]))
